@@ -438,7 +438,7 @@ def run(tier, seed):
             core.die("TLC Fused %s: %s\n%s" % (name, t.violation, t.out[-3000:]))
     ex.shutdown()
     need = [("call", "ret"), ("call", "TypeError"), ("call", "OverflowError"), ("index", "KeyError"), ("index", "ret"), ("call", "any"),
-            ("call", "hazard:sort"), ("call", "hazard:bool"), ("call", "hazard:wild")]
+            ("call", "hazard:wild")]
     if built and any(classes.get(k, 0) == 0 for k in need):
         core.die("vacuous replay: case classes %s" % {("%s/%s" % k): v for k, v in classes.items()})
     if model_mismatch and rep.n_violations() == 0:
